@@ -92,7 +92,9 @@ def handleRx : List String → Option String
   | "rx" :: seq :: tr :: ev :: chunks => do
     let seq ← seq.toNat?
     let chunks ← chunks.mapM parseHex
-    let st0 : Rx.RxState := { packSeq := seq, transport := tr == "1", hasEvent := ev == "1" }
+    -- ev: 0 = no send yet, 1 = an ACK event exists (send waiting or timed out), 2 = it exists and is already set
+    let st0 : Rx.RxState := { packSeq := seq, transport := tr == "1", hasEvent := ev == "1" || ev == "2",
+                              eventSet := ev == "2" }
     let (st, logs) := chunks.foldl (fun (acc : Rx.RxState × List String) c =>
       let r := Rx.dataReceived (fun _ => false) acc.1 c
       (r.1, acc.2 ++ [showOuts r.2])) (st0, [])
